@@ -94,6 +94,33 @@ CHECKS = {
         'note': 'sampling over meshes 4..16, TSC/CIC, compensated/interlaced, binnings; compiled pipeline cross-checked '
                 'single-threaded on a tenth of the cases',
     },
+    'C09': {
+        'engine': 'E1-threads',
+        'technique': 'deterministic simulation of the two-pass threaded HOD kernels under seeded schedules, checked against '
+                     'an executable reference model of the threshold rule plus two metamorphic relations',
+        'text': 'gen_gal_cat/gen_gals (as is) drive the simulated gen_cent/gen_sats/fast_concatenate; every output row is '
+                'matched, in order, against a reference that stacks the package mean-occupation functions LRG->ELG->QSO '
+                'with incompleteness and multiplicity/weight, and applies velocity bias, RSD, wrap and the light-cone '
+                'projection; randoms are placed on slice edges +-k ulps (within 4 ulps either outcome is accepted); '
+                'nestedness in ic and independence of earlier tracers from later ones are checked on extra runs. '
+                'The rule is a function of the inputs: the simulator contributes the (Nthread, assignment, interleaving) '
+                'under which the offsets that pick the host are computed; the input dimension is plain generation.',
+        'design_ref': 'DESIGN.md 4 (C09)',
+        'note': 'mean-occupation functions are shared with the reference by definition of the property; NFW satellites '
+                '(numba RNG) are out of scope',
+    },
+    'C10': {
+        'engine': 'E1-threads',
+        'technique': 'deterministic simulation: seeded scheduler over the count/fill prange passes, bitwise comparison with '
+                     'the single-thread run, data-race invariant, two allocator poisons',
+        'text': 'for Nthread 1..16 (incl. more threads than hosts, empty tables, sizes not divisible by Nthread) every '
+                'column, the row order and Ncent must be bitwise equal to the Nthread=1 run under static/cyclic/dynamic '
+                'iteration assignment and serial/random/PCT schedules; no element may be written by two simulated '
+                'threads; results must not depend on the poison pattern of np.empty (an unwritten output row). '
+                '_searchsorted_parallel is simulated separately against numpy.searchsorted.',
+        'design_ref': 'DESIGN.md 4 (C10)',
+        'note': 'compiled kernels on real threads are compared only at the thorough tier (minutes of compilation)',
+    },
 }
 
 NOT_APPLICABLE = {
@@ -104,5 +131,5 @@ NOT_APPLICABLE = {
            'no chunking, interleaving or fault for a simulator to vary',
     'C18': 'pure function on a finite domain of 65340 codes: complete enumeration, which is not simulation',
 }
-for _p in ('C01', 'C02', 'C03', 'C05', 'C09', 'C10', 'C11', 'C12', 'C16', 'C19', 'C20'):
+for _p in ('C01', 'C02', 'C03', 'C05', 'C11', 'C12', 'C16', 'C19', 'C20'):
     NOT_APPLICABLE.setdefault(_p, PENDING)
